@@ -26,6 +26,9 @@ type c16Case struct {
 	// k = after every k-th operation only, 1000 = at the very end only. (Reading is not neutral for a wrapper that
 	// caches what it last reported; the estimate used to judge notifications is always the algorithm's own.)
 	PollEvery int `json:"poll_every,omitempty"`
+	// Times (no windowed wrapper): the sample / set operations are gone through that many times (the listeners stay):
+	// long histories in which the estimate sits at a bound, creeps towards it or keeps crossing the same values
+	Times int `json:"times,omitempty"`
 }
 
 func genC16(t *rapid.T) c16Case {
@@ -36,6 +39,9 @@ func genC16(t *rapid.T) c16Case {
 		c.Cfg.IncreaseBy = rapid.SampledFrom([]int{1, 2, 7}).Draw(t, "incrAtInt32")
 	}
 	c.PollEvery = rapid.SampledFrom([]int{0, 0, 1, 3, 7, 1000}).Draw(t, "pollEvery")
+	if !c.Cfg.Windowed && c.Cfg.Outer2 != "windowed" {
+		c.Times = rapid.SampledFrom([]int{1, 1, 1, 1, 3, 10}).Draw(t, "times")
+	}
 	n := rapid.IntRange(1, 120).Draw(t, "nops")
 	regs := 0
 	for i := 0; i < n; i++ {
@@ -102,7 +108,15 @@ func runC16(_ *testing.T, c c16Case) kit.Outcome {
 	var ls []*c16Listener
 	changes, ups, downs := 0, 0, 0
 	lateReg := false
-	for i, op := range c.Ops {
+	ops := c.Ops
+	for r := 1; r < c.Times; r++ {
+		for _, op := range c.Ops {
+			if op.K != "reg" {
+				ops = append(ops, op)
+			}
+		}
+	}
+	for i, op := range ops {
 		before := b.Inner.EstimatedLimit()
 		if c.PollEvery == 0 {
 			before = b.Outer.EstimatedLimit()
@@ -136,7 +150,7 @@ func runC16(_ *testing.T, c c16Case) kit.Outcome {
 			b.Outer.OnSample(op.S.Start, op.S.RTT, inf, op.S.Drop)
 		}
 		after := b.Inner.EstimatedLimit()
-		if c.PollEvery == 0 || (c.PollEvery < 1000 && (i+1)%c.PollEvery == 0) || i == len(c.Ops)-1 {
+		if c.PollEvery == 0 || (c.PollEvery < 1000 && (i+1)%c.PollEvery == 0) || i == len(ops)-1 {
 			if out := b.Outer.EstimatedLimit(); out != after {
 				return kit.Viol("wrapper:estimate", "op %d: wrapper reports %d but its delegate %d", i, out, after)
 			}
